@@ -22,7 +22,7 @@ def _validate(ev):
 
 def write(pid, ev):
     _validate(ev)
-    d = os.path.join(env.VERIF, "evidence")
+    d = os.environ.get("VERIF_EVIDENCE_DIR") or os.path.join(env.VERIF, "evidence")  # override: scratch runs on mutated trees
     os.makedirs(d, exist_ok=True)
     tmp = os.path.join(d, f".{pid}.json.tmp")
     with open(tmp, "w") as f:
